@@ -134,6 +134,23 @@ theorem encoder_sound (U : Universe) (hU : WFU U) (P : Problem) (fuel : Nat) (s0
       evalClause (muS (solveRun U P fuel s0).2 sel) (clauseLits (solveRun U P fuel s0).2 c) = true :=
   fun c hc he => clause_sound (solveRun_tinv U hU P fuel s0) sel hv c hc he
 
+/-- the root variable is true under the assignment any selection induces -/
+theorem muS_root {U : Universe} {P : Problem} {s : S} (hi : TInv U P s) (sel : List Nat) : muS s sel 0 = true :=
+  mu_root U P (orgSt s) (sinv_orgSt hi) sel
+
+/-- **Encoder soundness, the way a verdict uses it** (same quantification as `encoder_sound`): if no assignment that makes
+    the root variable true satisfies all the requires, constrains, lock and exclusion clauses the model holds after a
+    solve, the hard problem has no valid selection at all. -/
+theorem no_solution_of_encoded_unsat (U : Universe) (hU : WFU U) (P : Problem) (fuel : Nat) (s0 : S)
+    (hun : ∀ μ : Nat → Bool, μ 0 = true → ∃ c ∈ (solveRun U P fuel s0).2.clauses.toList,
+      encoded c.kind = true ∧ evalClause μ (clauseLits (solveRun U P fuel s0).2 c) = false) :
+    ¬ ∃ sel, Valid U P.hard sel [] := by
+  intro ⟨sel, hv⟩
+  have hi := solveRun_tinv U hU P fuel s0
+  obtain ⟨c, hc, he, hf⟩ := hun (muS (solveRun U P fuel s0).2 sel) (muS_root hi sel)
+  have := clause_sound hi sel hv c hc he
+  rw [hf] at this; cases this
+
 theorem filterMap_of_ordered (org : Org) (cs vs : List Nat) (hl : vs.length = cs.length)
     (h : ∀ p ∈ cs.zip vs, oSolv org p.2 = some p.1) : vs.filterMap (oSolv org) = cs := by
   induction cs generalizing vs with
